@@ -4,6 +4,7 @@ import (
 	"fmt"
 	"strings"
 	"sync"
+	"time"
 )
 
 func init() { Checks["C01"] = CheckC01 }
@@ -164,6 +165,9 @@ func CheckC01(l *Lab, verifDir string) int {
 				for j := range jobs {
 					c01RunOne(rep, f, j.c, j.transport)
 				}
+				if w == 0 {
+					c01Reattach(rep, f, l.Pick(4, 30))
+				}
 				c01PostGateway(rep, f)
 			}(w)
 		}
@@ -242,5 +246,85 @@ func c01RunOne(rep *Report, f *Fixture, c c01Case, transport string) {
 	if res.ReachedOpen || (len(res.History) >= 4 && c.idx%400 == 0) {
 		res.Trace = nil
 		rep.Sample(res)
+	}
+}
+
+// c01Reattach: a legacy tunnel whose IN body was ended by the client (terminating
+// chunk, connection left open) is over: a second RDG_IN_DATA request under the
+// same connection id must not get a second sequence answered with success and must
+// not cause a second connection to the host.
+func c01Reattach(rep *Report, f *Fixture, n int) {
+	legacy := false
+	for _, tr := range Transports() {
+		legacy = legacy || tr == "legacy"
+	}
+	if !legacy {
+		return
+	}
+	for i := 0; i < n; i++ {
+		f.ResetBackends()
+		env := f.Env("legacy")
+		W := env.wd()
+		id := NewConnID("ra")
+		t, _, err := env.OpenTunnel(id)
+		if err != nil || t == nil {
+			rep.Inconclusive("reattach: open")
+			continue
+		}
+		steps := []Sym{f.SymHS(true), f.SymTC("good", f.H1.Addr()), f.SymTA(), f.SymCC(f.H1.Addr())}
+		okc := true
+		for k, s := range steps {
+			t.Send(s.Wire)
+			if got, _ := t.WaitPackets(k+1, W); got < k+1 {
+				okc = false
+				break
+			}
+		}
+		if !okc {
+			rep.Inconclusive("reattach: first sequence not completed")
+			t.Close()
+			continue
+		}
+		if i%2 == 0 {
+			t.Send(Data([]byte("first-attachment")))
+		}
+		t.EndChunked()
+		t.WaitEnd(3*time.Second, false) // a gateway that released the tunnel closes OUT (C11's subject); sequencing only
+		before := len(t.Snapshot().Packets)
+		x, xres, _ := OpenLegacy(f.GW.Addr, LegacyOpts{ConnID: id, SkipOut: true, InHeaders: env.Headers, Auth: env.Auth})
+		st := 0
+		if xres != nil && xres.In != nil {
+			st = xres.In.Status
+		}
+		if x != nil {
+			for _, s := range steps {
+				x.Send(s.Wire)
+				time.Sleep(20 * time.Millisecond)
+			}
+			t.WaitPackets(before+4, 1500*time.Millisecond)
+			x.Close()
+		}
+		snap := t.Snapshot()
+		var later []string
+		success := 0
+		for _, p := range snap.Packets[before:] {
+			stt, _ := LenientStatus(p.Raw)
+			later = append(later, fmt.Sprintf("%s(%#x)", PktName(p.Raw.Type), stt))
+			if stt == 0 && p.Raw.Type != PktData {
+				success++
+			}
+		}
+		f.H1.Barrier()
+		accepts := len(f.H1.Conns())
+		t.Close()
+		rep.Eval(HashStr("reattach", i%2, st, success, accepts))
+		rep.Count("reattach_probes", 1)
+		detail := map[string]any{"second_in_status": st, "responses_after_first_in_ended": later, "host_accepts": accepts, "trace": snap.Log}
+		if success > 0 {
+			rep.Violate("C01/answered-after-tunnel-end/legacy-second-in", fmt.Sprintf("after the client ended the IN body, a second RDG_IN_DATA request under the same connection id (status %d) got %v", st, later), detail)
+		}
+		if accepts > 1 {
+			rep.Violate("C01/second-connection-for-one-tunnel/legacy-second-in", fmt.Sprintf("the host saw %d connections for one tunnel (a second RDG_IN_DATA request under the same connection id repeated the sequence)", accepts), detail)
+		}
 	}
 }
